@@ -346,7 +346,7 @@ def rust_suggestion(value):
     return f"Extract {value} to a named constant (e.g., const CONSTANT_NAME: i32 = {value})"
 
 
-@contract(VB + "ViolationBuilder.create_violation", props=["C02"],
+@contract(VB + "ViolationBuilder.create_violation", props=["C02", "C12"],
           types=dict(self=BuilderT, node=PyNode, value=Any, line=Int, file_path=OptPath), returns=ViolationT)
 class CreateViolation:
     def requires(self, node, value, line, file_path):
@@ -359,7 +359,7 @@ class CreateViolation:
         return result.line == line and result.message == magic_message(value) and result.rule_id == self.rule_id
 
 
-@contract(VB + "ViolationBuilder.create_typescript_violation", props=["C02"],
+@contract(VB + "ViolationBuilder.create_typescript_violation", props=["C02", "C12"],
           types=dict(self=BuilderT, value=Int, line=Int, file_path=OptPath), returns=ViolationT)
 class CreateTypescriptViolation:
     def value(self, value, line, file_path):
@@ -369,7 +369,7 @@ class CreateTypescriptViolation:
         return result.line == line and result.message == magic_message(value) and result.rule_id == self.rule_id
 
 
-@contract(VB + "ViolationBuilder.create_rust_violation", props=["C02"],
+@contract(VB + "ViolationBuilder.create_rust_violation", props=["C02", "C12"],
           types=dict(self=BuilderT, value=Int, line=Int, file_path=OptPath), returns=ViolationT)
 class CreateRustViolation:
     def value(self, value, line, file_path):
@@ -2233,3 +2233,200 @@ def definition_files_bounded(ctx):
              "budget": "9 file names x {path, None}; 13 x 2 x 8 x 2 generated module texts", "cases": n, "witness": v,
              "witness_confirmed": bool(v), "note": (f"first deviation: {v[0]}" if v else f"holds on all cases ({n} in total)")}
             for k, v in (("file-name-patterns", bad_name), ("content-thresholds", bad_content))]
+
+
+# =================================================================== BOUNDED nets at the observation points
+@custom("c02-violation-message", props=["C02", "C12"])
+def violation_message_bounded(ctx):
+    """The three builders on a grid of values (1..13 digit ints, negatives, floats with many digits): the message quotes
+    str(value) -- the number as the analyzers hand it over -- and line / rule id / path are copied. (The same clause is a
+    proved post-condition of the three create_*_violation contracts; this native run also covers a body that leaves the
+    executable subset, e.g. a format spec.)"""
+    import ast as _a
+    import importlib
+    import os
+    import pathlib
+    import sys
+    repo = ctx.get("repo") or os.environ.get("VERIF_REPO", "/repo")
+    if repo not in sys.path:
+        sys.path.insert(0, repo)
+    for m in [k for k in sys.modules if k == "src" or k.startswith("src.")]:
+        if not getattr(sys.modules[m], "__file__", "").startswith(os.path.abspath(repo)):
+            del sys.modules[m]
+    vb = importlib.import_module("src.linters.magic_numbers.violation_builder").ViolationBuilder("magic-numbers.numeric-literal")
+    values = [7, 42, 3600, 65535, 123456, 1234567, 16777215, 16777216, 86400000, 4294967296, 1234567890123, -7, -1234567,
+              3.14159, 3.14159265, 0.1, 2.5e-3, 1000.0, 1e21, 6.02214076e23]
+    node = _a.parse("x = 1").body[0].value
+    bad, n = {"python": [], "typescript": [], "rust": []}, 0
+    for v in values:
+        for line in (1, 17):
+            for fp in (pathlib.PurePosixPath("src/a.ts"), None):
+                for lang, make in (("python", lambda: vb.create_violation(node, v, line, fp)),
+                                   ("typescript", lambda: vb.create_typescript_violation(v, line, fp)),
+                                   ("rust", lambda: vb.create_rust_violation(v, line, fp))):
+                    n += 1
+                    try:
+                        r = make()
+                        ok = (r.message == f"Magic number {v} should be a named constant" and r.line == line
+                              and r.rule_id == "magic-numbers.numeric-literal" and r.file_path == (str(fp) if fp else ""))
+                        got = {"message": r.message, "line": r.line, "file_path": r.file_path}
+                    except BaseException as e:  # noqa
+                        ok, got = False, repr(e)[:200]
+                    if not ok and len(bad[lang]) < 3:
+                        bad[lang].append({"value": v, "line": line, "file_path": str(fp), "code": got})
+    return [{"name": f"bounded:ViolationBuilder.create_{'' if k == 'python' else k + '_'}violation/message-quotes-the-value", "kind": "bounded",
+             "verdict": "refuted" if v else "passed", "tool": "exhaustive enumeration", "budget": "20 values x 2 lines x 2 paths",
+             "cases": n // 3, "witness": v, "witness_confirmed": bool(v),
+             "note": (f"first deviation: {v[0]}" if v else "message == 'Magic number <str(value)> should be a named constant', "
+                      "line / rule id / path copied, on every case")} for k, v in bad.items()]
+
+
+@custom("c02-observation-differential", props=["C02", "C12"])
+def observation_differential_bounded(ctx):
+    """Generic net under the contracts, at the property's observation point (MagicNumberRule._check_python /
+    _check_typescript / _check_rust on whole source texts): generated programs, one statement per line, with literals in
+    plain expression positions and in each documented exempt position, spelled as decimal / hex / underscore-separated /
+    suffixed literals; random allowed_numbers and max_small_integer. ORACLE FROM THE PROPERTY TEXT ONLY: exactly one
+    violation per literal that is not allowed and not in an exempt position, on the literal's line, quoting its value;
+    nothing for booleans, strings, identifiers. Labelled bounded; seeded by ctx['seed']."""
+    import importlib
+    import os
+    import pathlib
+    import random
+    import sys
+    import types as _t
+    repo = ctx.get("repo") or os.environ.get("VERIF_REPO", "/repo")
+    if repo not in sys.path:
+        sys.path.insert(0, repo)
+    for m in [k for k in sys.modules if k == "src" or k.startswith("src.")]:
+        if not getattr(sys.modules[m], "__file__", "").startswith(os.path.abspath(repo)):
+            del sys.modules[m]
+    rule = importlib.import_module("src.linters.magic_numbers.linter").MagicNumberRule()
+    cfg_cls = importlib.import_module("src.linters.magic_numbers.config").MagicNumberConfig
+    rng = random.Random(1000 + int(ctx.get("seed", 0) or 0))
+    rounds = 60 if ctx.get("tier", "quick") == "quick" else 400
+    POOL = [0, 1, 2, 3, 5, 7, 9, 10, 12, 15, 30, 42, 100, 255, 1000, 3600, 65535, 1234567, 16777216]
+
+    def spell(v, lang):
+        forms = [str(v)]
+        if v >= 1000:
+            forms.append(f"{v:_}")
+        forms.append(hex(v))
+        if lang == "rust":
+            forms += [f"{v}u32", f"{v}_usize", f"0x{v:x}_u64"]
+        if lang == "typescript" and v >= 10:
+            forms.append("0X" + format(v, "X"))
+        return rng.choice(forms)
+
+    def gen(lang):
+        """-> (file name, lines, expected [(line, value)] before the allowed filter, is_test_file)"""
+        lines, lits = [], []          # lits: (line, value, exempt)
+
+        def add(text, found=()):
+            lines.append(text)
+            for v, exempt in found:
+                lits.append((len(lines), v, exempt))
+        small = rng.choice([1, 3, 10])
+        n = rng.randrange(3, 9)
+        if lang == "python":
+            add("import os")
+            for i in range(n):
+                v, w = rng.choice(POOL), rng.choice(POOL)
+                k = rng.randrange(10)
+                if k == 0:
+                    add(f"x{i} = compute({spell(v, lang)})", [(v, False)])
+                elif k == 1:
+                    add(f"y{i} = [{spell(v, lang)}, {spell(w, lang)}]", [(v, False), (w, False)])
+                elif k == 2:
+                    add(f"MAX_VALUE_{i} = {spell(v, lang)}", [(v, True)])
+                elif k == 3:
+                    add(f"for i{i} in range({v}): pass", [(v, 0 <= v <= small)])
+                elif k == 4:
+                    add(f"for j{i}, e{i} in enumerate(items, {v}): pass", [(v, 0 <= v <= small)])
+                elif k == 5:
+                    add(f"sep{i} = '-' * {v}", [(v, True)])
+                elif k == 6:
+                    add(f"flag{i} = True; name{i} = 'v{v}'; other{i} = x{v}")
+                elif k == 7:
+                    add(f"def f{i}(a={spell(v, lang)}): return a + {spell(w, lang)}", [(v, False), (w, False)])
+                elif k == 8:
+                    add(f"if value{i} > {spell(v, lang)}: pass", [(v, False)])
+                else:
+                    add(f"t{i} = timeout * {spell(v, lang)}", [(v, False)])
+            name = rng.choice(["src/app.py", "src/app.py", "tests/test_app.py", "pkg/util_test.py"])
+            is_test = pathlib.PurePosixPath(name).name.startswith("test_") or "_test.py" in name
+        elif lang == "typescript":
+            for i in range(n):
+                v, w = rng.choice(POOL), rng.choice(POOL)
+                k = rng.randrange(7)
+                if k == 0:
+                    add(f"let r{i} = compute({spell(v, lang)}) + {spell(w, lang)};", [(v, False), (w, False)])
+                elif k == 1:
+                    add(f"const MAX_VALUE_{i} = {spell(v, lang)};", [(v, True)])
+                elif k == 2:
+                    add(f"enum E{i} {{ A = {spell(v, lang)} }}", [(v, True)])
+                elif k == 3:
+                    add(f"const name{i} = 'v{v}'; const flag{i} = true;")
+                elif k == 4:
+                    add(f"if (value{i} > {spell(v, lang)}) {{ run(); }}", [(v, False)])
+                elif k == 5:
+                    add(f"function f{i}(a = {spell(v, lang)}) {{ return a; }}", [(v, False)])
+                else:
+                    add(f"items{i}.push({spell(v, lang)}, {spell(w, lang)});", [(v, False), (w, False)])
+            name = rng.choice(["src/app.ts", "src/app.ts", "src/app.test.ts", "src/lib.js"])
+            is_test = any(mk_ in name for mk_ in (".test.", ".spec.", "test_", "_test.", "/tests/", "/test/"))
+        else:
+            add("fn helper(x: u64) -> u64 {")
+            for i in range(n):
+                v, w = rng.choice(POOL), rng.choice(POOL)
+                k = rng.randrange(4)
+                if k == 0:
+                    add(f"    let a{i} = x + {spell(v, lang)};", [(v, False)])
+                elif k == 1:
+                    add(f"    let s{i} = \"v{v}\"; let b{i} = true;")
+                elif k == 2:
+                    add(f"    if x > {spell(v, lang)} {{ run({spell(w, lang)}); }}", [(v, False), (w, False)])
+                else:
+                    add(f"    let t{i} = [{spell(v, lang)}, {spell(w, lang)}];", [(v, False), (w, False)])
+            add("    x")
+            add("}")
+            v = rng.choice(POOL)
+            add(f"const MAX_SIZE: u64 = {spell(v, lang)};", [(v, True)])
+            v = rng.choice(POOL)
+            add(f"static TIMEOUT: u64 = {spell(v, lang)};", [(v, True)])
+            add("#[cfg(test)]")
+            add("mod tests {")
+            v = rng.choice(POOL)
+            add(f"    fn t() -> u64 {{ {spell(v, lang)} }}", [(v, True)])
+            add("}")
+            name, is_test = "src/lib.rs", False
+        return name, lines, lits, is_test, small
+
+    import re as _re
+    bad = {"python": [], "typescript": [], "rust": []}
+    cases = {"python": 0, "typescript": 0, "rust": 0}
+    for _ in range(rounds):
+        for lang, check in (("python", rule._check_python), ("typescript", rule._check_typescript), ("rust", rule._check_rust)):
+            name, lines, lits, is_test, small = gen(lang)
+            allowed = set(rng.sample(POOL, rng.randrange(0, 8)))
+            config = cfg_cls(allowed_numbers=set(allowed), max_small_integer=small)
+            context = _t.SimpleNamespace(file_path=pathlib.Path(name), file_content="\n".join(lines) + "\n", language=lang)
+            expected = sorted((ln, v) for ln, v, exempt in lits if v not in allowed and not exempt and not is_test)
+            try:
+                got = []
+                for r in check(context, config):
+                    mt = _re.fullmatch(r"Magic number (\S+) should be a named constant", r.message)
+                    got.append((r.line, int(mt.group(1)) if mt and _re.fullmatch(r"-?\d+", mt.group(1)) else r.message))
+                got = sorted(got, key=repr)
+            except BaseException as e:  # noqa
+                got = repr(e)[:200]
+            cases[lang] += 1
+            if got != sorted(expected, key=repr) and len(bad[lang]) < 2:
+                bad[lang].append({"file": name, "source": lines, "allowed_numbers": sorted(allowed), "max_small_integer": small,
+                                  "expected_(line,value)": expected, "reported_(line,value)": got})
+    return [{"name": f"bounded:MagicNumberRule._check_{k}/exactly-the-non-allowed-non-exempt-literals", "kind": "bounded",
+             "verdict": "refuted" if v else "passed", "tool": "generated programs (differential against the property text)",
+             "budget": f"{cases[k]} generated {k} files, seed {ctx.get('seed', 0)}", "cases": cases[k], "witness": v,
+             "witness_confirmed": bool(v),
+             "note": (f"first deviation: {str(v[0])[:600]}" if v else "one violation per non-allowed, non-exempt literal, on its line, "
+                      "quoting its value; nothing else")} for k, v in bad.items()]
